@@ -491,7 +491,7 @@ def run(ctx):
 
 
 MANIFEST_ENTRY = {
-    "technique": "static analysis: symbolic evaluation of both plural generators and comparison of their selection skeletons (rules/genplurals.py), sibling comparison of the range generators and formatter families (syn, expanded templates), abstract evaluation of the t! input selector (get_key) to token text, selector-table extraction of the output flavours, MIR return-value summaries (py/mirsum.py) showing wrappers, scope helpers and every Literal::into_str impl to be identities / the Display text, the emission clauses of C01.R4 (each back-end emits every piece, incl. the tuple regrouping of the view back-end); MIR path traces (py/mirsum.py) of the 18 formatter entry points incl. the closure returned by the view flavour: all three flavours of a family hand the same converted value to the ICU formatter, on every path; the macro entry-point table (rules/entrytable.py); the selector tables read off the code t_macro_inner generates",
+    "technique": "static analysis: symbolic evaluation of both plural generators and comparison of their selection skeletons (rules/genplurals.py), sibling comparison of the range generators and formatter families (syn, expanded templates), abstract evaluation of the t! input selector (get_key) to token text, selector-table extraction of the output flavours, MIR return-value summaries (py/mirsum.py) showing wrappers, scope helpers and every Literal::into_str impl to be identities / the Display text, the emission clauses of C01.R4 (each back-end emits every piece, incl. the tuple regrouping of the view back-end); MIR path traces (py/mirsum.py) of the 18 formatter entry points incl. the closure returned by the view flavour: all three flavours of a family hand the same converted value to the ICU formatter, on every path; the macro entry-point table (rules/entrytable.py); the selector tables read off the code t_macro_inner generates; C02.R7 pass-through vocabulary: between the ICU format call and the output a flavour only moves the text (resolved callees against a whitelist, private helpers followed, write!/format! templates read from the source); C02.R1 formatter families by evaluation of the three generators (shared with C18.R3)",
     "level_text": "Structural: the two back-ends are compared construct by construct on every run (an asymmetry is what makes flavours diverge) and each is shown to emit every piece; the macro selector tables are evaluated / extracted; wrappers, scoping and the string flavour of plain literals are shown to be identities on locale, key and Display text. Rendered strings are not compared.",
     "level_note": "Trusted: leptos rendering equals Display for the value types. Not decided: HTML vs Display text of a concrete value.",
 }
